@@ -2,6 +2,7 @@
 // They are analysed on every run next to the library (never linked, never part of the library): a rule that
 // stops reporting the `bad_*` function or starts reporting the `good_*` one is broken and says so (exit 2).
 #include <algorithm>
+#include "BaseGraph/directed_graph.hpp"
 #include <list>
 #include <vector>
 
@@ -54,6 +55,19 @@ inline unsigned good_cursor(const std::list<unsigned> &values) {
     return n;
 }
 
+// F-VAL.inv -------------------------------------------------------------------------------------------------
+inline void bad_invented(const BaseGraph::DirectedGraph &graph, const std::vector<unsigned> &subset) {
+    unsigned largest = 0;
+    for (unsigned v : subset)
+        largest = std::max(largest, v);
+    graph.assertVertexInRange(largest);     // checks 0 when the subset is empty
+}
+
+inline void good_invented(const BaseGraph::DirectedGraph &graph, const std::vector<unsigned> &subset) {
+    for (unsigned v : subset)
+        graph.assertVertexInRange(v);
+}
+
 } // namespace fixture
 } // namespace BaseGraph
 
@@ -63,6 +77,9 @@ void bgcheck_fixture_use() {
     (void)BaseGraph::fixture::good_sorted_search(v, 2);
     (void)BaseGraph::fixture::bad_signed_arith(1u, 2u);
     (void)BaseGraph::fixture::good_signed_arith(1u, 2u);
+    BaseGraph::DirectedGraph dg(3);
+    BaseGraph::fixture::bad_invented(dg, v);
+    BaseGraph::fixture::good_invented(dg, v);
     std::list<unsigned> l{1, 2};
     (void)BaseGraph::fixture::bad_cursor(l);
     (void)BaseGraph::fixture::good_cursor(l);
